@@ -13,7 +13,7 @@ LEVEL = "exploration"
 
 
 def rpcs(L):
-    return list(range(1, L + 3)) + [1024, 10**9]
+    return list(range(1, L + 5)) + [1024, 10**9]
 
 
 def snap_and_chunks(tree, spec):
@@ -37,7 +37,8 @@ def expected_chunks(spec, rpc):
 def execute(case):
     level, L, P, cache_rpc = case["level"], case["L"], case["P"], case.get("cache_rpc")
     tc = "C*8" if level == "1.1" else "IU2"
-    images = [synth.image_spec("HH", None, L, P, tc), synth.image_spec("HV", None, max(1, L - 1), P + 1, tc)]
+    # a shorter and a longer image after the first one (state must not leak from image to image)
+    images = [synth.image_spec("HH", None, L, P, tc), synth.image_spec("HV", None, max(1, L - 1), P + 1, tc), synth.image_spec("VV", None, L + 2, P, tc)]
     spec = synth.product_spec(level, images=images)
     files, _ = synth.build(spec)
     fails = []
@@ -92,7 +93,7 @@ def plan(tier):
 
 def run(res, tier, seed):
     res.rule = (
-        "L in 1..6 x rpc in {1..L+2, 1024, 1e9} x level {1.1 (C*8), 1.5 (IU2)}, two images of different size per product;"
+        "L in 1..6 x rpc in {1..L+4, 1024, 1e9} x level {1.1 (C*8), 1.5 (IU2)}, three images of different size (shorter and longer than the first) per product;"
         " every tree fully loaded and compared leaf by leaf with the rpc=1 tree (all pairs for L<=3); cache legs open the"
         " same product after create_cache=True at another rpc. Every case compares >= 8 trees, all non-trivial."
     )
